@@ -242,8 +242,9 @@ class PythonExpr(TalesExpr):
         # Convert line continuations to newlines
         string = substitute(re_continuation, '\n', stripped)
 
-        # Convert newlines to spaces
-        string = string.replace('\n', ' ')
+        # Convert newlines to spaces (XML documents keep their carriage
+        # returns, which are line ends to Python as well)
+        string = string.replace('\n', ' ').replace('\r', ' ')
 
         try:
             value = self.parse(string)
